@@ -58,13 +58,13 @@ Section ReaderProofs.
       assert (K : kind_eqb (i_kind c) KXml && negb true = false) by (destruct (i_kind c); reflexivity).
       rewrite K.
       destruct (put_result c t (mangle (md5 u) s_document) u f) as [f' [P L]]. rewrite P. cbn.
-      exists [u], f'. split; [reflexivity|]. split; [|split].
+      exists [EvFetch u; EvParsed u], f'. split; [reflexivity|]. split; [|split].
       + exists u. rewrite L, str_eqb_refl. reflexivity.
       + intros n [G|[o G]]; unfold good, written; rewrite L;
           destruct (str_eqb n (doc_name (i_kind c) u)); eauto.
       + intros n [o G]. unfold written. rewrite L. destruct (str_eqb n (doc_name (i_kind c) u)); eauto.
     - rewrite (get_hit c t t _ f o E) by (unfold fresh; lia). cbn.
-      exists [], f. split; [reflexivity|]. split; [exists o; exact E|]. auto.
+      exists [EvParsed u], f. split; [reflexivity|]. split; [exists o; exact E|]. auto.
   Qed.
 
   Lemma load_cold c t us f :
@@ -86,10 +86,19 @@ Section ReaderProofs.
       + intros n Hn. apply Wr2, Wr, Hn.
   Qed.
 
+  Lemma fetched_of_parsed us : fetched_of (map EvParsed us) = [].
+  Proof. induction us; [reflexivity|exact IHus]. Qed.
+
+  Lemma parsed_of_parsed us : parsed_of (map EvParsed us) = us.
+  Proof. induction us; [reflexivity|cbn; f_equal; exact IHus]. Qed.
+
+  Lemma parsed_of_app a b : parsed_of (a ++ b) = parsed_of a ++ parsed_of b.
+  Proof. unfold parsed_of. apply flat_map_app. Qed.
+
   Lemma load_warm c t0 t us f :
     fresh (i_dur c) t0 t = true ->
     (forall u, In u us -> written (i_kind c) t0 f (doc_name (i_kind c) u)) ->
-    load ser deser md5 c 0 t us f = (Ret [], f).
+    load ser deser md5 c 0 t us f = (Ret (map EvParsed us), f).
   Proof.
     intros Fr. induction us as [|u us IH]; intro W; [reflexivity|].
     cbn [load]. unfold bind at 1. unfold doc_open, bind, r_get. cbn [N.eqb].
@@ -103,7 +112,7 @@ Section ReaderProofs.
     pol <> 0%N -> exists fetched, load ser deser md5 c pol t us f = (Ret fetched, f).
   Proof.
     intro P. apply N.eqb_neq in P. induction us as [|u us [b IH]]; [exists []; reflexivity|].
-    exists ([u] ++ b). cbn [load]. unfold bind at 1. unfold doc_open, bind, r_get, r_put, ret. rewrite P.
+    exists ([EvFetch u; EvParsed u] ++ b). cbn [load]. unfold bind at 1. unfold doc_open, bind, r_get, r_put, ret. rewrite P.
     unfold bind. rewrite IH. reflexivity.
   Qed.
 
@@ -119,7 +128,8 @@ Section ReaderProofs.
       (forall u, In u (w_docs w) -> f0 (doc_name (i_kind c) u) = None) ->
       f0 (wsdl_name (i_kind c) (w_main w)) = None ->
       defs_open c pol t w unwrap f0 = (Ret (fetched, out), f1) ->
-      exists out', fst (defs_open c' pol t' w unwrap' f1) = Ret ([], out').
+      exists evs out', fst (defs_open c' pol t' w unwrap' f1) = Ret (evs, out') /\ fetched_of evs = []
+                       /\ (pol = 0%N -> parsed_of evs = w_docs w).
     Proof.
       intros [->|[-> K]] KK Dur Fr Cold ColdW E.
       - (* policy 0: documents *)
@@ -128,7 +138,9 @@ Section ReaderProofs.
         { intros u Hu. left. apply Cold, Hu. }
         rewrite L in E. inversion E; subst.
         unfold Reader.defs_open, bind, r_get, r_put, ret. cbn [N.eqb].
-        rewrite (load_warm c' t t' (w_docs w) f1 Fr); [eexists; reflexivity|].
+        rewrite (load_warm c' t t' (w_docs w) f1 Fr).
+        { eexists; eexists. split; [reflexivity|]. split; [apply fetched_of_parsed|].
+          intros _. apply parsed_of_parsed. }
         intros u Hu. rewrite KK. apply W, Hu.
       - (* policy 1: the WSDL object *)
         unfold Reader.defs_open, bind, r_get, r_put, ret in E. cbn [N.eqb Pos.eqb] in E.
@@ -141,7 +153,8 @@ Section ReaderProofs.
         rewrite P in E. inversion E; subst.
         unfold Reader.defs_open, bind, r_get. cbn [N.eqb Pos.eqb].
         rewrite (get_hit c' t t' _ f1 (wsdl_obj unwrap)); [|rewrite Lk, KK, str_eqb_refl; reflexivity|exact Fr].
-        destruct (q_none && existsb negb (w_imps w)); eexists; reflexivity.
+        destruct (q_none && existsb negb (w_imps w)); eexists; eexists;
+          (split; [reflexivity|split; [reflexivity|discriminate]]).
     Qed.
 
     (* neither reader uses the cache under any other policy value *)
@@ -156,21 +169,23 @@ Section ReaderProofs.
 
     (* DefinitionsReader.open either finds a loadable WSDL object (policy 1) and re-attaches the
        options, or loads and stores; no cache failure gets out *)
-    Lemma load_total c pol t us f : exists b f2, load ser deser md5 c pol t us f = (Ret b, f2).
+    Lemma load_total c pol t us f :
+      exists b f2, load ser deser md5 c pol t us f = (Ret b, f2) /\ parsed_of b = us.
     Proof.
-      revert f. induction us as [|u us IH]; intro g; [exists [], g; reflexivity|].
+      revert f. induction us as [|u us IH]; intro g; [exists [], g; split; reflexivity|].
       cbn [load]. unfold bind at 1.
-      assert (D : exists a g1, doc_open ser deser md5 c pol t u g = (Ret a, g1)).
+      assert (D : exists a g1, doc_open ser deser md5 c pol t u g = (Ret a, g1) /\ parsed_of a = [u]).
       { unfold doc_open, bind, r_get, r_put, ret. destruct (pol =? 0)%N.
         - destruct (get_never_raises_l deser NoFault c t (mangle (md5 u) s_document) g) as [r Hr].
           destruct (cache_get deser NoFault c t (mangle (md5 u) s_document) g) as [r0 g0]. cbn in Hr. subst r0.
-          destruct r as [x|]; [eexists; eexists; reflexivity|].
-          destruct (kind_eqb (i_kind c) KXml && negb true); [eexists; eexists; reflexivity|].
+          destruct r as [x|]; [eexists; eexists; split; reflexivity|].
+          destruct (kind_eqb (i_kind c) KXml && negb true); [eexists; eexists; split; reflexivity|].
           destruct (put_result c t (mangle (md5 u) s_document) u g0) as [g1 [P _]]. rewrite P.
-          eexists; eexists; reflexivity.
-        - eexists; eexists; reflexivity. }
-      destruct D as [a [g1 D]]. rewrite D. destruct (IH g1) as [b [g2 L]].
-      unfold bind. rewrite L. eexists; eexists; reflexivity.
+          eexists; eexists; split; reflexivity.
+        - eexists; eexists; split; reflexivity. }
+      destruct D as [a [g1 [D Pa]]]. rewrite D. destruct (IH g1) as [b [g2 [L Pb]]].
+      unfold bind. rewrite L. eexists; eexists. split; [reflexivity|].
+      rewrite parsed_of_app, Pa, Pb. reflexivity.
     Qed.
 
     Lemma defs_open_cases c pol t w unwrap f :
@@ -190,7 +205,7 @@ Section ReaderProofs.
         destruct (deser (i_kind c) (f_data x)) as [o'|] eqn:D; inversion G; subst.
         exists x, o. split; [reflexivity|]. split; [reflexivity|]. split; [exact D|].
         destruct (q_none && existsb negb (w_imps w)); reflexivity.
-      - right. destruct (load_total c pol t (w_docs w) f') as [b [f2 L]]. rewrite L. unfold r_put, ret.
+      - right. destruct (load_total c pol t (w_docs w) f') as [b [f2 [L _]]]. rewrite L. unfold r_put, ret.
         destruct (pol =? 1)%N.
         + destruct (kind_eqb (i_kind c) KXml && negb false); [eexists; eexists; reflexivity|].
           destruct (put_result c t (mangle (md5 (w_main w)) s_wsdl) (wsdl_obj unwrap) f2) as [g1 [P _]].
@@ -294,7 +309,8 @@ Section ReaderProofs.
        (forall u, In u (w_docs w) -> f0 (doc_name k u) = None) /\ f0 (wsdl_name k (w_main w)) = None) ->
     match crun ser deser ver md5 q_none q_stale w (f0, t)
                [CClient k d pol u1; CAdvance dt; CClient k d' pol u2] with
-    | [(_, Some (_, _)); _; (_, Some (fetched, _))] => fetched = []
+    | [(_, Some (_, _)); _; (_, Some (evs, _))] =>
+        fetched_of evs = [] /\ (pol = 0%N -> parsed_of evs = w_docs w)
     | _ => False
     end.
   Proof.
@@ -319,9 +335,9 @@ Section ReaderProofs.
     cbn [cstep fst snd]. rewrite (check_version_same (t + dt) f2 V2).
     destruct (warm_fetches_nothing_l q_none q_stale (mkinst k d) (mkinst k d') pol t (t + dt)%Z w u1 u2 f1 b
                 (COk true (w_docstyle w && u1)) f2)
-      as [out' W]; try assumption; try reflexivity.
+      as [evs [out' [W [NoFetch Hooks]]]]; try assumption; try reflexivity.
     destruct (defs_open ser deser md5 q_none q_stale (mkinst k d') pol (t + dt) w u2 f2) as [[r|] f3];
-      cbn in W; inversion W; subst. reflexivity.
+      cbn in W; inversion W; subst. split; assumption.
   Qed.
 
   (* the options of the client being built are attached to the WSDL and to every imported
